@@ -89,7 +89,8 @@ Definition first_word (t : tok) : tok := take_word (drop_ws t).
 (* parse_value<std::string>: iss >> value (value keeps the default when nothing can be extracted) *)
 Definition string_value (argv : list tok) (name : tok) (dflt : tok) : tok :=
   match typed_lookup argv name with
-  | VAt _ t => match first_word t with [] => dflt | w => w end
+  | VAt _ t => if is_dash t then dflt                      (* a string option never takes the next option as value *)
+               else match first_word t with [] => dflt | w => w end
   | _ => dflt
   end.
 Definition bool_value (argv : list tok) (name : tok) (dflt : bool) : bool :=
@@ -124,7 +125,10 @@ Record block : Type := {
   b_uses : list use }.
 Inductive kind : Type := KString | KDouble | KBool.
 Record decl : Type := { d_var : tok; d_name : tok; d_kind : kind; d_default : tok }.
-Inductive cond : Type := CArgcLt (k : nat) | CHelp | CEmpty (var : tok).
+Inductive cond : Type :=
+  | CArgcLt (k : nat) | CHelp | CEmpty (var : tok)
+  | CManyOptions (ignored : list tok)     (* cmd.num_options(ignored)>1 *)
+  | CUnknown.                             (* cmd.unknown_argument()!=nullptr *)
 Record precheck : Type := { pc_conds : list cond; pc_calls_help : bool; pc_ret : Z }.
 Record tool : Type := {
   t_name : tok;
@@ -149,11 +153,38 @@ Definition var_empty (t : tool) (argv : list tok) (v : tok) : bool :=
   | Some d => match decl_string argv d with [] => true | _ => false end
   | None => false
   end.
+(* CommandLine::num_options: arguments after argv[0] that start with '-' and are not in the ignored list *)
+Definition counted_option (ign : list tok) (a : tok) : bool := is_dash a && negb (existsb (tok_eqb a) ign).
+Definition num_options (argv : list tok) (ign : list tok) : nat :=
+  List.length (filter (counted_option ign) (tl argv)).
+
+(* CommandLine::used after the declarations: argv[0], the first -h / --help, the first occurrence of every declared
+   option name and the value taken after it (none for flags; for strings only when it does not start with '-') *)
+Definition value_taken (d : decl) (argv : list tok) (j : nat) : bool :=
+  match d_kind d, nth_error argv (S j) with
+  | KBool, _ => false
+  | _, None => false
+  | KString, Some v => negb (is_dash v)
+  | KDouble, Some _ => true
+  end.
+Definition marked_by (argv : list tok) (name : tok) (i : nat) : bool :=
+  match find_argument argv name with Some j => (i =? j)%nat | None => false end.
+Definition marked (t : tool) (argv : list tok) (i : nat) : bool :=
+  (i =? 0)%nat || marked_by argv tok_h i || marked_by argv tok_help i
+  || existsb (fun d => match find_argument argv (d_name d) with
+                       | Some j => (i =? j)%nat || (value_taken d argv j && (i =? S j)%nat)
+                       | None => false
+                       end) (t_decls t).
+Definition unknown_argument (t : tool) (argv : list tok) : option nat :=
+  find (fun i => negb (marked t argv i)) (seq 1 (List.length argv - 1)).
+
 Definition cond_holds (t : tool) (argv : list tok) (c : cond) : bool :=
   match c with
   | CArgcLt k => (List.length argv <? k)%nat
   | CHelp => help_mode argv
   | CEmpty v => var_empty t argv v
+  | CManyOptions ign => (1 <? num_options argv ign)%nat
+  | CUnknown => match unknown_argument t argv with Some _ => true | None => false end
   end.
 Definition pc_code (t : tool) (p : precheck) : Z :=
   if pc_calls_help p then match t_help_exit t with Some c => c | None => pc_ret p end else pc_ret p.
@@ -284,3 +315,23 @@ Definition covers (b : block) (n : nat) : bool :=
   forallb (fun k => existsb (Nat.eqb k) (reads_at b n)) (seq 1 n).
 Definition params_used_ok (b : block) : bool := covers b (nmand b) && covers b (List.length (b_parms b)).
 Definition tool_params_used_ok (t : tool) : bool := forallb params_used_ok (t_blocks t).
+
+(* tools with option blocks count the options before any block runs; no alias is in the ignored list, all start with '-' *)
+Definition many_check (t : tool) (c : cond) : bool :=
+  match c with
+  | CManyOptions ign => forallb (fun a => counted_option ign a) (all_aliases t)
+  | _ => false
+  end.
+Definition option_count_ok (t : tool) : bool :=
+  match t_blocks t with
+  | [] => true
+  | _ => existsb (fun p => existsb (many_check t) (pc_conds p)) (t_pre t)
+  end.
+(* tools without option blocks that declare typed options reject unknown arguments *)
+Definition is_unknown_check (c : cond) : bool := match c with CUnknown => true | _ => false end.
+Definition has_unknown_check (t : tool) : bool := existsb (fun p => existsb is_unknown_check (pc_conds p)) (t_pre t).
+Definition unknown_check_ok (t : tool) : bool :=
+  match t_blocks t, t_decls t with
+  | [], _ :: _ => has_unknown_check t
+  | _, _ => true
+  end.
